@@ -222,14 +222,36 @@ def gen_repr(rng: random.Random, tier: str):
         d = rng.choice([2, 3])
         n = rng.choice([1, 2])
         grids = [small_grid(rng, d, 3, 7) for _ in range(n)]
+        pos = grids[0].pop("origin", None) or grids[0].pop("center")
+        grids[0]["center"] = pos
         for gs in grids[1:]:
             gs["size"] = grids[0]["size"]
+            # the fields of one batch cover a common region (same centre, own spacing / orientation / convention), so that a
+            # target grid placed there samples VALUES of every field, not padding
+            gs.pop("origin", None)
+            gs["center"] = pos
         if n == 1 and rng.random() < 0.35:
             # a pyramid level of an odd-sized grid: the stored size is fractional (9 -> 4.5, five samples)
             grids = [dict(small_grid(rng, d, 7, 11), derive="downsample", derive_factor=1.0)]
         tgt = small_grid(rng, d, 3, 7)
         yield {"grids": grids, "tgt": tgt, "seed": rng.randrange(1 << 30), "steps": rng.choice([0, 2, 4]),
                "pair": [rng.choice(AX), rng.choice(AX)]}
+
+
+def _target_inside(spec, grids):
+    """the target grid of the case (its size, orientation, anisotropy, convention) scaled and moved into the region every
+    source grid of the batch covers: centred near the first grid's centre, circumscribed radius 0.4 x the smallest source
+    extent. (A target at its own random position almost never overlaps the sources, and resampled padding is all zero.)"""
+    d = grids[0].ndim
+    rmin = min(float(g.extent().min()) for g in grids)
+    t0 = gen.make_grid(spec)
+    ext = t0.extent().double()
+    scale = 0.8 * rmin / float(ext.norm()) if float(ext.norm()) > 0 else 1.0
+    centers = torch.stack([g.center().double() for g in grids])
+    if float((centers - centers[0]).abs().max()) > 1e-3 * rmin:
+        return t0            # sources at different places (cases built by search_cases): keep the target as given
+    return Grid(size=t0.size(), spacing=(t0.spacing().double() * scale).tolist(), direction=t0.direction(),
+                center=(grids[0].center().double() + 0.05 * rmin).tolist(), align_corners=t0.align_corners())
 
 
 def check_repr(c):
@@ -263,7 +285,7 @@ def check_repr(c):
     if (wa - wb).abs().max() > 2e-3 * float(img.tensor().abs().max()):
         return (f"C10:warp_image:repr:{a.value}-vs-{b.value}", f"warped images differ by {(wa - wb).abs().max():.3e}")
     # sample on another grid: world-space vectors agree between representations
-    tgt = gen.make_grid(c["tgt"])
+    tgt = _target_inside(c["tgt"], grids)
     tgts = [tgt] * n
     sa = fa.sample(tgts)
     sb = fa.axes(b).sample(tgts)
